@@ -92,6 +92,19 @@ NONVACUITY = {
 for _pid in ("C03", "C14", "C06"):
     THEOREMS[_pid] = THEOREMS[_pid] + ["init_coherent", "step_coherent", "eventsPre_coherent", "coherent_reach"]
     MODULES[_pid] = MODULES[_pid] + ["Boario.Properties.Coherence"]
+# element-wise formulas of the source = the model's definitions (Properties/Formulas.lean over the regenerated Gen/Formulas.lean)
+FORMULAS = {
+    "C14": ["Gen.overprod_is_code"],
+    "C02": ["Gen.overprod_is_code", "Gen.capacity_is_code", "Gen.capNegative_is_code", "Gen.xOpt_is_code"],
+    "C03": ["Gen.xOpt_is_code", "Gen.capacity_is_code"],
+    "C07": ["Gen.capacity_is_code"],
+    "C09": ["Gen.linear_is_code", "Gen.convexe_is_code", "Gen.convexe_scaled_is_code", "Gen.cellwise_linear_is_code",
+            "Gen.cellwise_convexe_is_code", "Gen.cellwise_convexe_scaled_is_code"],
+    "C20": ["Gen.capNegative_is_code"],
+}
+for _pid, _names in FORMULAS.items():
+    THEOREMS[_pid] = THEOREMS[_pid] + _names
+    MODULES[_pid] = MODULES[_pid] + ["Boario.Properties.Formulas"]
 for _pid, _names in NONVACUITY.items():
     THEOREMS[_pid] = THEOREMS[_pid] + [n for n in _names if n not in THEOREMS[_pid]]
     MODULES[_pid] = MODULES[_pid] + ["Boario.Properties.NonVacuity"] + (["Boario.Properties.LoopThm"] if _pid in ("C01", "C10") else [])
@@ -155,7 +168,8 @@ PAIRED = {"C01": ["long_loop_c01"], "C05": ["c05_loop", "long_loop_c05"], "C10":
           "C19": ["c19_shift", "c19_late"], "C17": ["c17_determinism"]}
 
 # properties whose Lean side includes tables regenerated from the source on every run
-GEN = {"C16": True, "C17": True, "C02": True, "C14": True, "C04": True, "C11": True, "C05": True, "C19": True, "C01": True, "C10": True}
+GEN = {"C16": True, "C17": True, "C02": True, "C14": True, "C04": True, "C11": True, "C05": True, "C19": True, "C01": True, "C10": True,
+       "C03": True, "C07": True, "C09": True, "C20": True}
 
 NONTRIVIAL = {
     "C12": ("weights", "non-uniform weights or an invalid input"),
